@@ -132,6 +132,12 @@ FrameIsEffectFree ==
 \*   txv6    tx version 6             iron    the Ironwood bundle is not canonically empty
 \*   nv2     Orchard note version 2   oanchor/sanchor  anchor present, or nothing in the bundle needs one
 \*   cvcmx   every action carries cv_net and cmx       memo  every enc_ciphertext is in encrypted form
+\* The v2 encoding may carry an output's memo PLAINTEXT (trailing zero bytes stripped) in place of the
+\* ciphertext: any stripped length from 0 (the all-zero memo) up to and including the full memo size
+\* is representable and must survive serialise / parse.
+MemoSize == 512
+StrippedMemoLenOK(n) == n \in 0 .. MemoSize
+
 V1Rep(p) == ~p.txv6 /\ ~p.iron /\ p.nv2 /\ p.oanchor /\ p.sanchor /\ p.cvcmx /\ p.memo
 Encoding(p) == IF V1Rep(p) THEN 1 ELSE 2
 
